@@ -14,7 +14,7 @@ from checks import sysinj_common as SJ
 from checks import sysw_table as T
 
 BUDGET = 6
-CONFORMING = ["bail", "coerce", "dup_minus16", "execve_neg"]
+CONFORMING = ["bail_unit", "bail_val", "bail_val32", "bail_valu32", "raw32", "ignore", "dup_minus16", "execve_neg"]
 NEGATIVE = ["dup_plus16", "execve_raw"]   # idioms TLC must reject (anti-vacuity; the pinned tree's leads)
 
 
@@ -158,15 +158,18 @@ def result_rec(res):
     return {"tag": res["tag"]}
 
 
-def judge(chk, recs, tag):
+def judge(chk, recs, tag, explain=None):
+    """TLC judges the records; with explain = {} it also collects, per wrapper, the set of
+    modelled idioms (SyscallIdioms.tla) that explain every one of its records."""
     bad = []
     B = 40000
     for k in range(0, len(recs), B):
         part = recs[k:k + B]
         path = os.path.join(chk.work, "judge_%s_%d.ndjson" % (tag, k))
         core.write_ndjson(path, part)
-        res = core.run_tlc("SyscallJudge.tla", "SyscallJudge.cfg", workers=1, env={"TRACE": path},
-                           timeout=3000, xmx="4g", xss="512m")
+        res = core.run_tlc("SyscallJudge.tla", "SyscallJudge.cfg", workers=1,
+                           env={"TRACE": path, "EXPLAIN": "1" if explain is not None else "0"},
+                           timeout=3000, xmx="6g", xss="512m")
         core.tlc_must_pass(res, "SyscallJudge")
         j = res.printed("JUDGED")
         if len(j) != 1 or j[0]["n"] != len(part):
@@ -174,6 +177,16 @@ def judge(chk, recs, tag):
         chk.add_tlc(res)
         chk.traces += len(part)
         bad += [k + i - 1 for i in j[0]["bad"]]
+        if explain is not None:
+            ex = res.printed("IDIOMS")
+            if len(ex) != 1 or len(ex[0]["of"]) != len(part):
+                raise core.ToolError("SyscallJudge did not explain all records")
+            names = ex[0]["names"]
+            for rec, ks in zip(part, ex[0]["of"]):
+                if rec.get("canary"):
+                    continue
+                cur = {names[i - 1] for i in ks}
+                explain[rec["w"]] = cur if rec["w"] not in explain else (explain[rec["w"]] & cur)
     return bad
 
 
@@ -310,6 +323,7 @@ def run(tier):
     nontrivial = set()
     nr_drift = {}
     state = {"disagreements": 0}
+    idioms = {}
 
     def campaign(bdir, by_combo, tag, build):
         items, meta = [], {}
@@ -358,8 +372,9 @@ def run(tier):
                 c["res"] = {"tag": "err", "code": 1}  # success reported as error
             else:
                 continue
+            c["canary"] = True
             canaries.append(c)
-        verdict = judge(chk, recs + canaries, tag)
+        verdict = judge(chk, recs + canaries, tag, idioms if build == "debug" else None)
         caught = {k - len(recs) for k in verdict if k >= len(recs)}
         if len(caught) != len(canaries) or not canaries:
             raise core.ToolError("SyscallJudge accepted %d of %d corrupted records (vacuous judge)" % (len(canaries) - len(caught), len(canaries)))
@@ -432,6 +447,10 @@ def run(tier):
         "table_nr_mismatch": ["%s:%s" % (m["file"], m["fn"]) for m in mismatch],
         "other_syscalls_seen_in_windows": {k: sorted(v) for k, v in nr_drift.items()},
         "wrappers": len(wrappers), "plans": len(plans), "protocol_models": mc,
+        # algorithm level: which model-checked idiom of SyscallIdioms.tla explains all records of a wrapper
+        "wrapper_idioms": {w: sorted(v) for w, v in sorted(idioms.items())},
+        "model_conformance": all(idioms.get(w["w"]) for w in wrappers),
+        "wrappers_following_no_modelled_idiom": sorted(w["w"] for w in wrappers if not idioms.get(w["w"])),
     })
     if uncovered:
         chk.assumptions.append("syscall! sites without a driver entry (not checked): " + ", ".join(chk.extra["sites_uncovered"]))
